@@ -10,7 +10,7 @@ if os.path.exists(f'{V}/seeded/RESULTS2.json'):
 for pid in sys.argv[1:]:
     for k in sorted(os.listdir(f'/tmp/seed2_{pid}')) if os.path.isdir(f'/tmp/seed2_{pid}') else []:
         src = f'/tmp/seed2_{pid}/{k}'
-        if not os.path.exists(f'{src}/patch.diff'):
+        if not os.path.exists(f'{src}/patch.diff') or k.startswith('_'):
             continue
         name = f'r2-{pid}-{k}'
         out = f'{V}/seeded/{name}'
